@@ -33,7 +33,20 @@ VOCAB = [
 assert len(VOCAB) == 40
 VOCAB_B = VOCAB + ["\n", "\n    ", "\n        ", "\n", "or", "is", "try", "except", "finally", "while", "elif", "raise", "assert", "global", "nonlocal", "None", "->", ":=", "@", "...", "|", "<", "//", "+=", "type", "_", "*=", "~", "y", "0", '"t"', "b'b'", "True", "break", "continue"]
 
-NOT_PY = re.compile(r"[$?`]|!(?!=)|&&|\|\||@\(|>&|(?i:(?<!\w)(?:[rbu]{0,2}p[rbuf]{0,2}|[rbu]{0,2}f[rbup]{0,2})['\"])")
+# '!' is a Python lexeme only in '!=' and as an f-string conversion ('!r}', '!s:', ...)
+NOT_PY = re.compile(r"[$?`]|!(?!=|[rsa]\s*[:}])|&&|\|\||@\(|>&|(?i:(?<!\w)[rbuf]{0,2}p[rbuf]{0,2}['\"])")
+
+
+SMALL_VALID = [
+    "x = 1\n", "*a, b = c\n", "a, *b = c\n", "[*a] = c\n", "for *a, b in c: pass\n", "x = [*a, b]\n", "f(*a, **k)\n", "def f(*a, b, **k): pass\n", "lambda *a, b=1: 0\n", "x = {**a, 'b': 1}\n",
+    "with a as (*b,): pass\n", "x = a if b else c\n", "x = [a for b in c if d]\n", "x = {a: b for c in d}\n", "del a, b[0], c.d\n", "a = b = c\n", "a += 1\n", "a: int = 1\n", "a.b[c](d)\n",
+    "import a.b as c\n", "from . import a\n", "from a import (b, c)\n", "try:\n    a\nexcept B as c:\n    d\n", "try:\n    a\nexcept* B:\n    d\n", "while a:\n    break\nelse:\n    pass\n",
+    "if a:\n    b\nelif c:\n    d\nelse:\n    e\n", "class A(B, c=d): pass\n", "@a.b(c)\ndef f(): pass\n", "async def f():\n    await a\n", "def f():\n    yield from a\n", "match a:\n    case [b, *c]: pass\n",
+    "match a:\n    case {'k': v, **r}: pass\n", "match a:\n    case B(c, d=e) | f: pass\n", "type X[T] = list[T]\n", "def f[T: int, *Ts, **P](): pass\n", "x = a[1:2, ::3]\n", "x = (yield)\n", "x = (a := 1)\n",
+    "assert a, b\n", "raise a from b\n", "global a, b\n", "return a\n", "x = not a in b\n", "x = a < b <= c\n", "x = -a ** -b\n", "x = a @ b\n", "x = 'a' 'b'\n", "x = f'{a!r:>{w}}'\n", "x = f'{a}' 'b'\n", "x = b'a' b'b'\n",
+    "x = lambda: (yield)\n", "print(a, end='')\n", "a = b, = c\n", "for a in b, c: pass\n", "x = [a, b][0]\n", "with (a as b, c as d): pass\n", "x = a.b.c\n", "x = ...\n", "x = 1_0.0e-1j\n",
+]
+NEIGHBOUR_VOCAB = ["*", "**", "=", ",", ":", "(", ")", "[", "]", "x", "1", "'s'", "not", "in", "if", "else", "for", "as", "lambda", ".", "b'b'", "f''", ";", "@", ":=", "await", "yield", "del", "import", "=="]
 
 
 def in_python_lexicon(src: str) -> bool:
@@ -143,6 +156,41 @@ def search(rec, ctx):
             check(rec, {"src": pre, "stream": "prefix", "near": True})
 
     drive(st.randoms(use_true_random=False), prefixes, ctx.budget(400, 8000), ctx.hseed("prefix"))
+
+    # ---- (c2) the complete single-token-edit neighbourhood of small valid statements ---------------
+    def neighbourhood(rnd):
+        base = rnd.choice(SMALL_VALID) if rnd.random() < 0.6 else PyGen(rnd, max_depth=2).stmt(0, "")
+        if cpy(base).kind != "tree":
+            return
+        toks = [t for t in mutate.lex(base)]
+        sig = [i for i, t in enumerate(toks) if t.strip()]
+        if not sig or len(sig) > 14:
+            return
+        for i in sig:
+            variants = [toks[:i] + toks[i + 1 :], toks[:i] + [toks[i], " ", toks[i]] + toks[i + 1 :]]
+            for v in NEIGHBOUR_VOCAB:
+                variants.append(toks[:i] + [v] + toks[i + 1 :])
+                variants.append(toks[:i] + [v, " "] + toks[i:])
+            for v in variants:
+                check(rec, {"src": "".join(v), "stream": "single-edit-neighbourhood", "near": True})
+        for a, b in zip(sig, sig[1:]):
+            v = list(toks)
+            v[a], v[b] = v[b], v[a]
+            check(rec, {"src": "".join(v), "stream": "single-edit-neighbourhood", "near": True})
+
+    drive(st.randoms(use_true_random=False), neighbourhood, ctx.budget(160, 3000), ctx.hseed("neighbourhood"))
+
+    # ---- (c3) f-string statements and their mutations (f-strings are Python lexemes too) -----------
+    def fmut(rnd):
+        from ..gen.fstr import FGen
+
+        base = FGen(rnd).statement()
+        if rnd.random() < 0.3:
+            base = base.rstrip("\n") + rnd.choice([" b'x'\n", " rb''\n", " 'p'\n", " B\"q\" 'r'\n"])
+        src, _ = (base, "none") if rnd.random() < 0.3 else mutate.mutate(rnd, base, vocab=mutate.PY_VOCAB + ["{", "}", "!r", ":", "=", "{{", "}}", "b'b'", "rb''"])
+        check(rec, {"src": src, "stream": "fstring-mutation", "near": True})
+
+    drive(st.randoms(use_true_random=False), fmut, ctx.budget(8000, 150000), ctx.hseed("fmut"))
 
     # ---- (d) tab/space ambiguity (expected: finding D21) ------------------------------------------
     def tabs(rnd):
